@@ -1,7 +1,9 @@
 mod budget;
+mod crash;
 mod freelist;
 mod gcommit;
 mod gcommit_api;
+mod joinobs;
 mod plock;
 mod sched;
 mod sqlrun;
@@ -23,6 +25,8 @@ fn main() {
         "freelist-replay" => freelist::replay(&args),
         "gc-replay" => gcommit::replay(&args),
         "sql-run" => sqlrun::run(&args),
+        "join-obs" => joinobs::run(&args),
+        "crash-run" => crash::run(&args),
         "wal-faults" => wal::fault_sweep(&args),
         other => {
             eprintln!("unknown subcommand {}", other);
